@@ -54,61 +54,76 @@ def basic_codes(ctx):
         check(code, 'after the caller overwrote its own pauli_to_bsf results for the same operator lists')
 
 
+def low_weight_logical(n, d, S, gf2_rank=None):
+    """A non-trivial normalizer element of weight 1 (any n) or 2 (n <= 120) lighter than d for the stabilizer matrix S,
+    as a Pauli string, or None; also the number of commuting low-weight operators looked at."""
+    if gf2_rank is None:
+        gf2_rank = lat_common.rank_gf2
+    S = np.array(S, dtype=np.uint8)
+    Sx, Sz = S[:, :n].astype(np.int64), S[:, n:].astype(np.int64)
+    singles = [(qb, pl) for qb in range(n) for pl in (1, 2, 3)]
+    cand = []
+    if d > 1:
+        E = np.zeros((len(singles), 2 * n), dtype=np.int64)
+        for i, (qb, pl) in enumerate(singles):
+            E[i, qb], E[i, n + qb] = pl & 1, pl >> 1
+        syn = (E[:, n:] @ Sx.T + E[:, :n] @ Sz.T) % 2
+        cand += [E[i] for i in np.flatnonzero(~syn.any(axis=1))]
+        if d > 2 and n <= 120:
+            # pairs: syndromes add
+            ssyn = syn.astype(np.uint8)
+            packed = np.packbits(ssyn, axis=1)
+            index = {}
+            for i in range(len(singles)):
+                index.setdefault(packed[i].tobytes(), []).append(i)
+            for key_, lst in index.items():
+                for a in range(len(lst)):
+                    for b in range(a + 1, len(lst)):
+                        i, j = lst[a], lst[b]
+                        if singles[i][0] != singles[j][0] and ssyn[i].any():
+                            cand.append((E[i] + E[j]) % 2)
+    rS = None
+    for v in cand[:50]:
+        if rS is None:
+            rS = gf2_rank(S)
+        if gf2_rank(np.vstack([S, v.astype(np.uint8)])) > rS:
+            return ''.join('IXZY'[int(v[i]) + 2 * int(v[n + i])] for i in range(n)), len(cand)
+    return None, len(cand)
+
+
 def low_weight_sweep(ctx):
     """Every size of every family in the C07 range: no non-trivial normalizer element of weight 1 (all sizes) or
     2 (n <= 120) when d exceeds that weight - a cheap necessary condition that reaches sizes far beyond the
     exhaustive search budget."""
-    from qecsim.models.planar import PlanarCode
-    from qecsim.models.toric import ToricCode
-    from qecsim.models.rotatedplanar import RotatedPlanarCode
-    from qecsim.models.rotatedtoric import RotatedToricCode
-    from qecsim.models.color import Color666Code
-    from harness.c07 import gf2_rank
-    q = ctx.quick
-    sizes = [(PlanarCode, (r, c)) for r in range(2, 11 if q else 17) for c in range(2, 11 if q else 17)]
-    sizes += [(ToricCode, (r, c)) for r in range(2, 11 if q else 17) for c in range(2, 11 if q else 17)]
-    sizes += [(RotatedPlanarCode, (r, c)) for r in range(3, 12 if q else 18) for c in range(3, 12 if q else 18)]
-    sizes += [(RotatedToricCode, (r, c)) for r in range(2, 13 if q else 19, 2) for c in range(2, 13 if q else 19, 2)]
-    sizes += [(Color666Code, (s,)) for s in range(3, 14 if q else 22, 2)]
-    for cls, args in sizes:
-        code = cls(*args)
-        n, k, d = code.n_k_d
-        S = np.array(code.stabilizers, dtype=np.uint8)
-        Sx, Sz = S[:, :n].astype(np.int64), S[:, n:].astype(np.int64)
-        rS = None
-        singles = []
-        for qb in range(n):
-            for pl in (1, 2, 3):
-                singles.append((qb, pl))
-        cand = []
-        if d > 1:
-            E = np.zeros((len(singles), 2 * n), dtype=np.int64)
-            for i, (qb, pl) in enumerate(singles):
-                E[i, qb], E[i, n + qb] = pl & 1, pl >> 1
-            syn = (E[:, n:] @ Sx.T + E[:, :n] @ Sz.T) % 2
-            cand += [E[i] for i in np.flatnonzero(~syn.any(axis=1))]
-            if d > 2 and n <= 120:
-                # pairs: syndromes add
-                ssyn = syn.astype(np.uint8)
-                packed = np.packbits(ssyn, axis=1)
-                index = {}
-                for i in range(len(singles)):
-                    index.setdefault(packed[i].tobytes(), []).append(i)
-                for key_, lst in index.items():
-                    for a in range(len(lst)):
-                        for b in range(a + 1, len(lst)):
-                            i, j = lst[a], lst[b]
-                            if singles[i][0] != singles[j][0] and ssyn[i].any():
-                                cand.append((E[i] + E[j]) % 2)
+    for cls, args in lat_common.family_sizes(ctx):
+        rep = {'family': lat_common.FAMILY_OF[cls.__name__], 'size': list(args)}
+        try:
+            code = cls(*args)
+            n, k, d = code.n_k_d
+            S = code.stabilizers
+        except Exception as e:  # noqa
+            ctx.violation('matrices-raise', 'stabilizers / n_k_d of a code of an accepted size raise %s' % type(e).__name__,
+                          dict(rep, attribute='stabilizers / n_k_d', exception=repr(e)[:200]))
+            continue
+        op, ncand = low_weight_logical(n, d, S)
         ctx.count(('low-weight', cls.__name__, args), args[0] != args[-1] or d >= 3, 'low-weight-sweep',
-                  {'code': repr(code), 'd': d, 'commuting_low_weight_operators': len(cand)} if len(ctx.samples) < 9 else None)
-        for v in cand[:50]:
-            if rS is None:
-                rS = gf2_rank(S)
-            if gf2_rank(np.vstack([S, v.astype(np.uint8)])) > rS:
-                ctx.violation('low-weight-logical', 'a non-trivial logical operator lighter than the advertised d exists',
-                              {'code': repr(code), 'n_k_d': [n, k, d], 'operator': ''.join('IXZY'[int(v[i]) + 2 * int(v[n + i])] for i in range(n))})
-                break
+                  {'code': repr(code), 'd': d, 'commuting_low_weight_operators': ncand} if len(ctx.samples) < 9 else None)
+        if op is not None:
+            ctx.violation('low-weight-logical', 'a non-trivial logical operator lighter than the advertised d exists',
+                          {'code': repr(code), 'n_k_d': [n, k, d], 'operator': op})
+
+
+def history_sweep(ctx, stage):
+    """callback for the history / interpreter-mode passes of lat_common: the low-weight sweep on the stabilizers a code
+    object publishes after that history, where they differ from the usual ones"""
+    def on_difference(rep, nkd, S):
+        n, k, d = (int(v) for v in nkd)
+        op, ncand = low_weight_logical(n, d, S)
+        ctx.count(('low-weight', stage, repr(rep)), True, 'low-weight-sweep/' + stage)
+        if op is not None:
+            ctx.violation(stage + '-low-weight-logical', 'the stabilizers published %s admit a non-trivial logical operator '
+                          'lighter than the advertised d' % stage.replace('-', ' '), dict(rep, n_k_d=[n, k, d], operator=op))
+    return on_difference
 
 
 def run(ctx):
@@ -117,9 +132,14 @@ def run(ctx):
                 'non-trivial logical exists; supplied logicals not lighter than d over the full size range. '
                 'nontrivial = size with rows != cols or d >= 3')
     lat_common.prepare(ctx)
+    lat_common.stage(ctx, 'interrupted_evaluations', lat_common.interrupted_evaluations,
+                     on_difference=history_sweep(ctx, 'after-interrupt'))
+    lat_common.stage(ctx, 'cold_queries', lat_common.cold_queries, on_difference=history_sweep(ctx, 'cold-history'))
     fams = lat_common.run_families(ctx, 'check_c08', translator_families=['planar', 'toric', 'rotplanar', 'rottoric', 'color'])
-    basic_codes(ctx)
-    low_weight_sweep(ctx)
+    lat_common.stage(ctx, 'basic_codes', basic_codes)
+    lat_common.stage(ctx, 'low_weight_sweep', low_weight_sweep)
+    lat_common.stage(ctx, 'optimised_mode', lat_common.optimised_mode, on_difference=history_sweep(ctx, 'optimised-mode'))
+    lat_common.stage(ctx, 'final_recheck', lat_common.final_recheck)
     ctx.extra['families'] = fams + ['basic']
 
 
